@@ -1,3 +1,6 @@
 SPECIFICATION Spec
+CONSTANTS
+  Dev_NearCallLo = FALSE
+  Dev_CompressPairJalr = FALSE
 INVARIANT Report
 CHECK_DEADLOCK FALSE
